@@ -22,8 +22,8 @@ const (
 type tvT = tbtree.TimedValue
 
 type mv struct {
-	keys []string          // sorted
-	vers map[string][]tvT  // newest first
+	keys []string         // sorted
+	vers map[string][]tvT // newest first
 	ts   uint64
 }
 
@@ -190,6 +190,11 @@ func (o *oracle) reopen(x *runner, op Op) {
 		}
 	}
 	if best != o.folder {
+		if o.byTs[best] == nil {
+			x.violation("restart after a compaction that reported a time the tree never had", op, fmt.Sprint(best), "a past ts")
+			o.dead = true
+			return
+		}
 		o.cur = o.byTs[best]
 		o.folder = best
 	}
